@@ -55,7 +55,7 @@ theorem setItem_ent_allOf (n : String) (ps : List (String × V)) (v : V) :
 
 theorem inner_step (n : String) (ps extra : List (String × V)) (hex : Extra extra) (s : LGStep) :
     (do let c ← (if Visitor.truthy s.ttc = true then
-                   (do let v ← getItem s.ttc (V.str "name"); pure (v.eq (V.str "Enabled"))) else pure false : M Bool)
+                   (do let v ← getOr s.ttc (V.str "name") V.none; pure (v.eq (V.str "Enabled"))) else pure false : M Bool)
         if c = true then do
           let e ← modPath (ent n ps extra) [V.str "properties"] (fun o => setItem o (V.str s.name)
                     (mkDict [("type", V.str "number"), ("minimum", V.int 0), ("maximum", V.int 1), ("default", V.num "1.0")]))
@@ -69,7 +69,7 @@ theorem inner_step (n : String) (ps extra : List (String × V)) (hex : Extra ext
   rw [modPath_ent n ps extra hex, modPath_ent n ps extra hex]
   by_cases ht : Visitor.truthy s.ttc = true
   · rw [if_pos ht, if_pos ht]
-    cases getItem s.ttc (V.str "name") with
+    cases getOr s.ttc (V.str "name") V.none with
     | error e => rfl
     | ok v => cases hv : v.eq (V.str "Enabled") <;> simp only [bind_ok, pure_bind, hv] <;> rfl
   · rw [if_neg ht, if_neg ht]; rfl
@@ -200,20 +200,24 @@ theorem repLG_defenses (lg : LG) (L : Lang) (h : RepLG lg L) (r : ARef) (hr : r 
 def dfltText (t : V) : String := if ttcNameOf t = some "Enabled" then "1.0" else "0.0"
 
 theorem defaultOf_nondict (t : V) (h : ∀ d, t ≠ .dict d) :
-    defaultOf t = (if Visitor.truthy t = true then .error (.py .typeError) else .ok (V.num "0.0")) ∧
-      dget t "name" = none := by
-  cases t <;> first | exact ⟨rfl, rfl⟩ | exact absurd rfl (h _)
+    defaultOf t = (if Visitor.truthy t = true then .error (.py .attributeError) else .ok (V.num "0.0")) ∧
+      dget t "name" = none ∧ Visitor.isDict t = false := by
+  cases t <;> first | exact ⟨rfl, rfl, rfl⟩ | exact absurd rfl (h _)
 
 theorem eq_enabled (n : V) : V.eq n (V.str "Enabled") = true ↔ strOf n = some "Enabled" := by
   cases n <;> simp [V.eq, strOf]
 
+theorem getOr_dict (d : List (String × V)) (k : String) (dflt : V) :
+    getOr (.dict d) (.str k) dflt = .ok ((d.lookup k).getD dflt) := by
+  unfold getOr liftV Visitor.pyGet
+  simp only [Visitor.keyOf, bind, Except.bind, pure, Except.pure]
+  cases d.lookup k <;> rfl
+
+/-- since fix 6addd5c a TTC dictionary never raises: without `name` (a composite TTC) the default is 0.0 -/
 theorem defaultOf_dict (d : List (String × V)) :
-    defaultOf (.dict d) =
-      match d.lookup "name" with
-      | some n => .ok (V.num (if strOf n = some "Enabled" then "1.0" else "0.0"))
-      | none => if d.isEmpty = true then .ok (V.num "0.0") else .error (.py .keyError) := by
+    defaultOf (.dict d) = .ok (V.num (if (d.lookup "name").bind strOf = some "Enabled" then "1.0" else "0.0")) := by
   unfold defaultOf
-  rw [getItem_dict]
+  rw [getOr_dict]
   cases d with
   | nil => rfl
   | cons e es =>
@@ -221,25 +225,24 @@ theorem defaultOf_dict (d : List (String × V)) :
     cases hl : List.lookup "name" (e :: es) with
     | none => rfl
     | some n =>
-      show Except.ok _ = Except.ok _
       by_cases hn : strOf n = some "Enabled"
-      · rw [if_pos hn, if_pos ((eq_enabled n).2 hn)]
-      · rw [if_neg hn, if_neg (fun h => hn ((eq_enabled n).1 h))]
+      · rw [Option.bind_some, if_pos hn]
+        show Except.ok (if V.eq n (V.str "Enabled") = true then _ else _) = _
+        rw [if_pos ((eq_enabled n).2 hn)]
+      · rw [Option.bind_some, if_neg hn]
+        show Except.ok (if V.eq n (V.str "Enabled") = true then _ else _) = _
+        rw [if_neg (fun h => hn ((eq_enabled n).1 h))]
 
 theorem defaultOf_ok_iff (t : V) : (∃ v, defaultOf t = .ok v) ↔ ttcOk t = true := by
   by_cases hd : ∃ d, t = .dict d
   · obtain ⟨d, rfl⟩ := hd
     rw [defaultOf_dict]
-    show _ ↔ (!Visitor.truthy (.dict d) || (List.lookup "name" d).isSome) = true
-    cases hl : List.lookup "name" d with
-    | some n => simp
-    | none =>
-      cases d with
-      | nil => simp [Visitor.truthy]
-      | cons e es => simp [Visitor.truthy]
+    constructor
+    · intro _; unfold ttcOk; simp [Visitor.isDict]
+    · intro _; exact ⟨_, rfl⟩
   · have h := defaultOf_nondict t (fun d hd' => hd ⟨d, hd'⟩)
     unfold ttcOk
-    rw [h.1, h.2]
+    rw [h.1, h.2.2]
     cases Visitor.truthy t <;> simp
 
 theorem defaultOf_val (t v : V) (h : defaultOf t = .ok v) : v = V.num (dfltText t) := by
@@ -247,40 +250,26 @@ theorem defaultOf_val (t v : V) (h : defaultOf t = .ok v) : v = V.num (dfltText 
   by_cases hd : ∃ d, t = .dict d
   · obtain ⟨d, rfl⟩ := hd
     rw [defaultOf_dict] at h
-    show v = V.num (if (List.lookup "name" d).bind strOf = some "Enabled" then "1.0" else "0.0")
-    cases hl : List.lookup "name" d with
-    | some n =>
-      rw [hl] at h
-      injection h with h
-      exact h.symm
-    | none =>
-      rw [hl] at h
-      cases d with
-      | nil => injection h with h; exact h.symm
-      | cons e es => cases h
+    injection h with h
+    exact h.symm
   · have h' := defaultOf_nondict t (fun d hd' => hd ⟨d, hd'⟩)
     rw [h'.1] at h
-    rw [h'.2]
+    rw [h'.2.1]
     cases ht : Visitor.truthy t
     · rw [ht] at h; injection h with h; exact h.symm
     · rw [ht] at h; cases h
 
-theorem defaultOf_error (t : V) (e : CErr) (h : defaultOf t = .error e) : e = .py .keyError ∨ e = .py .typeError := by
+/-- what can still go wrong: `.get` on a true TTC that is not a dictionary (AttributeError) -/
+theorem defaultOf_error (t : V) (e : CErr) (h : defaultOf t = .error e) : e = .py .attributeError := by
   by_cases hd : ∃ d, t = .dict d
   · obtain ⟨d, rfl⟩ := hd
     rw [defaultOf_dict] at h
-    cases hl : List.lookup "name" d with
-    | some n => rw [hl] at h; cases h
-    | none =>
-      rw [hl] at h
-      cases d with
-      | nil => cases h
-      | cons e es => injection h with h; exact Or.inl h.symm
+    cases h
   · have h' := defaultOf_nondict t (fun d hd' => hd ⟨d, hd'⟩)
     rw [h'.1] at h
     cases ht : Visitor.truthy t
     · rw [ht] at h; cases h
-    · rw [ht] at h; injection h with h; exact Or.inr h.symm
+    · rw [ht] at h; injection h with h; exact h.symm
 
 theorem propsStep_eq (ps : List (String × V)) (s : LGStep) :
     propsStep ps s = (defaultOf s.ttc >>= fun d => pure (dictPut ps s.name (defenseSpec d))) := rfl
@@ -322,7 +311,7 @@ theorem assetProps_ok_iff (a : LGAsset) :
     exact h s this.1 (by simpa using this.2)
 
 theorem foldProps_error (l : List LGStep) (ps : List (String × V)) (e : CErr) (h : l.foldlM propsStep ps = .error e) :
-    e = .py .keyError ∨ e = .py .typeError := by
+    e = .py .attributeError := by
   induction l generalizing ps with
   | nil => cases h
   | cons s ss ih =>
@@ -337,10 +326,9 @@ theorem foldProps_error (l : List LGStep) (ps : List (String × V)) (e : CErr) (
       rw [hd] at h
       exact ih _ h
 
-/-- the error of `assetProps`: `KeyError` (a non-empty TTC dictionary without `name`) or `TypeError` (a true TTC that
-is not a dictionary) -/
+/-- the error of `assetProps`: `AttributeError` (`.get` on a true TTC that is not a dictionary) -/
 theorem assetProps_error (a : LGAsset) (e : CErr) (h : assetProps a = .error e) :
-    e = .py .keyError ∨ e = .py .typeError := foldProps_error _ _ e h
+    e = .py .attributeError := foldProps_error _ _ e h
 
 theorem dictPut_fresh (d : List (String × V)) (k : String) (v : V) (h : k ∉ d.map (·.1)) :
     dictPut d k v = d ++ [(k, v)] := by
